@@ -196,6 +196,7 @@ type Result struct {
 	DomSat       int // feasibility answered by exact value-set enumeration (sat)
 	DomUnsat     int // ... (unsat)
 	CacheSat     int // feasibility answered by a cached model
+	CrossChecked int // fast answers re-asked of z3 (all assertion queries, 1/64 of the rest); all agreed
 	MaxTrace     int
 	Steps        int64
 }
@@ -268,6 +269,7 @@ func (e *Engine) Run() *Result {
 		e.Res.DomSat += st.domSat
 		e.Res.DomUnsat += st.domUnsat
 		e.Res.CacheSat += st.cacheSat
+		e.Res.CrossChecked += st.crossChecked
 	}
 	return &e.Res
 }
